@@ -57,7 +57,12 @@ class XmlEventHandler(XmlHandler):
             An instance of the class type representing the parsed content.
         """
         element_ns_map: dict = {}
+        ended = None
         for event, element in context:
+            if ended is not None:
+                self.end_element(ended)
+                ended = None
+
             if event == EventType.START:
                 self.parser.start(
                     self.clazz,
@@ -69,14 +74,7 @@ class XmlEventHandler(XmlHandler):
                 )
                 element_ns_map = {}
             elif event == EventType.END:
-                self.parser.end(
-                    self.queue,
-                    self.objects,
-                    element.tag,
-                    element.text,
-                    element.tail,
-                )
-                element.clear()
+                ended = element
             elif event == EventType.START_NS:
                 prefix, uri = element
                 prefix = prefix or None
@@ -85,6 +83,9 @@ class XmlEventHandler(XmlHandler):
 
             else:
                 raise XmlHandlerError(f"Unhandled event: `{event}`.")
+
+        if ended is not None:
+            self.end_element(ended)
 
         return self.objects[-1][1] if self.objects else None
 
